@@ -16,10 +16,15 @@ import (
 	"sync"
 	"testing"
 
+	sdkErr "github.com/aliyun/alibaba-cloud-sdk-go/sdk/errors"
 	"github.com/aliyun/alibaba-cloud-sdk-go/services/vpc"
+	"k8s.io/apimachinery/pkg/runtime"
 	corev1 "k8s.io/api/core/v1"
 	"pgregory.net/rapid"
 
+	aliyunClient "github.com/AliyunContainerService/terway/pkg/aliyun/client"
+	apiErr "github.com/AliyunContainerService/terway/pkg/aliyun/client/errors"
+	"github.com/AliyunContainerService/terway/pkg/apis/network.alibabacloud.com/v1beta1"
 	register "github.com/AliyunContainerService/terway/pkg/controller"
 	"github.com/AliyunContainerService/terway/pkg/vswitch"
 	"github.com/AliyunContainerService/terway/types"
@@ -31,6 +36,10 @@ type c17pVSW struct {
 	Zone int   `json:"zone"`
 	Free int64 `json:"free"`
 	Fail bool  `json:"fail,omitempty"`
+	// the create call answers "no address left" although the reported count may still be
+	// positive (the vSwitch list lags behind); Quota: as QuotaExceeded.PrivateIpAddress
+	Exhausted bool `json:"exhausted,omitempty"`
+	Quota     bool `json:"quota,omitempty"`
 }
 
 type c17pNet struct {
@@ -46,6 +55,9 @@ type c17pOp struct {
 	ID   int       `json:"id,omitempty"`
 	Free int64     `json:"free,omitempty"`
 	Net  int       `json:"net,omitempty"` // block: the vSwitch network #Net of the latest pod was given
+	// pod: after a successful parse run the real createENI on the allocations (as the
+	// reconcile does); a create refused as exhausted makes the controller report the vSwitch
+	Create bool `json:"create,omitempty"`
 }
 
 type c17pScenario struct {
@@ -73,6 +85,8 @@ func c17pGen(t *rapid.T) c17pScenario {
 			Zone: rapid.SampledFrom([]int{0, 0, 0, 1, 0, 2}).Draw(t, "zone"),
 			Free: c17pFree.Draw(t, "free"),
 			Fail: rapid.IntRange(0, 14).Draw(t, "fail") == 0,
+			Exhausted: rapid.IntRange(0, 2).Draw(t, "exhausted") == 0,
+			Quota:     rapid.IntRange(0, 3).Draw(t, "quota") == 0,
 		})
 	}
 	netGen := rapid.Custom(func(t *rapid.T) c17pNet {
@@ -98,6 +112,7 @@ func c17pGen(t *rapid.T) c17pScenario {
 		o := c17pOp{Kind: "pod"}
 		o.Zone = rapid.SampledFrom([]int{0, 0, 0, 0, 1, 2}).Draw(t, "zone")
 		o.Nets = rapid.SliceOfN(netGen, 1, 4).Draw(t, "nets")
+		o.Create = rapid.IntRange(0, 2).Draw(t, "create") != 0
 		for i := range o.Nets {
 			if i > 0 || rapid.Bool().Draw(t, "named") {
 				o.Nets[i].Iface = "eth" + strconv.Itoa(i)
@@ -114,9 +129,53 @@ type c17pCloud struct {
 	mu                 sync.Mutex
 	vsw                []c17pVSW
 	calls              []int // ids successfully described
+	creates            []c17pCreate
+	neni               int
+}
+
+type c17pCreate struct {
+	vsw       string
+	exhausted bool
+}
+
+// CreateNetworkInterface knows the truth: an exhausted vSwitch answers
+// InvalidVSwitchId.IpNotEnough / QuotaExceeded.PrivateIpAddress whatever count was reported.
+func (c *c17pCloud) CreateNetworkInterface(_ context.Context, opts ...aliyunClient.CreateNetworkInterfaceOption) (*aliyunClient.NetworkInterface, error) {
+	o := &aliyunClient.CreateNetworkInterfaceOptions{}
+	for _, opt := range opts {
+		opt.ApplyCreateNetworkInterface(o)
+	}
+	id := ""
+	if o.NetworkInterfaceOptions != nil {
+		id = o.NetworkInterfaceOptions.VSwitchID
+	}
+	c.mu.Lock()
+	defer c.mu.Unlock()
+	i, ok := c17pIdx(id)
+	if !ok || i < 0 || i >= len(c.vsw) {
+		c.creates = append(c.creates, c17pCreate{vsw: id})
+		return nil, fmt.Errorf("InvalidVSwitchId.NotFound %q", id)
+	}
+	if c.vsw[i].Exhausted {
+		code := apiErr.InvalidVSwitchIDIPNotEnough
+		if c.vsw[i].Quota {
+			code = apiErr.QuotaExceededPrivateIPAddress
+		}
+		c.creates = append(c.creates, c17pCreate{vsw: id, exhausted: true})
+		return nil, apiErr.WarpError(sdkErr.NewServerError(400, fmt.Sprintf(`{"Code":"%s","Message":"no address left in %s"}`, code, id), ""))
+	}
+	c.creates = append(c.creates, c17pCreate{vsw: id})
+	c.neni++
+	return &aliyunClient.NetworkInterface{NetworkInterfaceID: fmt.Sprintf("eni-%d", c.neni), MacAddress: fmt.Sprintf("00:16:3e:00:00:%02x", c.neni%256),
+		VSwitchID: id, ZoneID: c17pZone(c.vsw[i].Zone), PrivateIPAddress: fmt.Sprintf("10.%d.0.%d", i, 10+c.neni%200)}, nil
 }
 
 func (c *c17pCloud) DescribeVSwitchByID(_ context.Context, id string) (*vpc.VSwitch, error) {
+	if id == "" {
+		// the id is only a filter of DescribeVSwitches (pkg/aliyun/client/vsw_default.go):
+		// without a filter the first vSwitch of the account comes back - a foreign one
+		return &vpc.VSwitch{VSwitchId: "vsw-foreign", ZoneId: c17pZone(0), AvailableIpAddressCount: 4000, CidrBlock: "172.16.0.0/16"}, nil
+	}
 	c.mu.Lock()
 	defer c.mu.Unlock()
 	i, ok := c17pIdx(id)
@@ -149,10 +208,21 @@ func c17pRun(c *vt.Ctx, s c17pScenario) {
 	if err != nil {
 		c.Inconclusive("switch pool")
 	}
-	m := &ReconcilePod{aliyun: cloud, swPool: pool}
+	controlplane.SetConfig(&controlplane.Config{ClusterID: "c17", IPStack: "ipv4"})
+	m := &ReconcilePod{aliyun: cloud, swPool: pool, record: c17pRecorder{}}
 	// reference view of the cache: value at first describe, 0 after Block
 	cached := make([]*c17pView, n)
 	var lastAllocs []string
+	reported := map[string]bool{} // vSwitches reported exhausted (Block) so far
+	reportedList := func() []string {
+		var out []string
+		for i := 0; i < n; i++ {
+			if reported[c17pID(i)] {
+				out = append(out, c17pID(i))
+			}
+		}
+		return out
+	}
 
 	for step, op := range s.Ops {
 		switch op.Kind {
@@ -170,6 +240,7 @@ func c17pRun(c *vt.Ctx, s c17pScenario) {
 			pool.Block(id)
 			if i, ok := c17pIdx(id); ok && i < n && cached[i] != nil {
 				cached[i] = &c17pView{ok: true, zone: cached[i].zone, free: 0}
+				reported[id] = true
 			}
 			c.Label("block")
 			c.Trace("#%d Block(%s)", step, id)
@@ -251,7 +322,15 @@ func c17pRun(c *vt.Ctx, s c17pScenario) {
 				desc := fmt.Sprintf("step %d network %d (interface %q, policy %q, candidates %v, zone %s)", step, i, nt.Iface, nt.Policy, before[i], c17pZone(op.Zone))
 				if len(elig) == 0 {
 					if perr == nil {
-						c.Fatalf("%s: no candidate is in the zone with free addresses, yet the pod got allocations", desc)
+						c.Fatalf("%s: no candidate is in the zone with free addresses in the cache's view, yet the pod got allocations %v (reported exhausted earlier, entries not expired: %v)", desc, func() []string {
+							var o []string
+							for _, a := range allocs {
+								if a != nil {
+									o = append(o, a.ENI.VSwitchID)
+								}
+							}
+							return o
+						}(), reportedList())
 					}
 					failedAt = i
 					break
@@ -283,7 +362,7 @@ func c17pRun(c *vt.Ctx, s c17pScenario) {
 						c.Fatalf("%s: selected %s, which is not in this network's candidate list", desc, got)
 					}
 					v := view(gi)
-					c.Fatalf("%s: selected %s, which is not eligible (view: ok=%v zone=%s free=%d)", desc, got, v.ok, c17pZone(v.zone), v.free)
+					c.Fatalf("%s: selected %s, which is not eligible (view: ok=%v zone=%s free=%d; reported exhausted earlier: %v)", desc, got, v.ok, c17pZone(v.zone), v.free, reportedList())
 				}
 				switch nt.Policy {
 				case "ordered", "":
@@ -339,8 +418,51 @@ func c17pRun(c *vt.Ctx, s c17pScenario) {
 				}
 			}
 			cloud.mu.Unlock()
+
+			// the reconcile goes on with createENI; a create refused as exhausted is what
+			// makes the pod controller report the vSwitch (swPool.Block): from then on it
+			// must not be chosen while its cache entry lives
+			if op.Create && perr == nil && len(allocs) > 0 {
+				cloud.mu.Lock()
+				cloud.creates = nil
+				cloud.mu.Unlock()
+				podENI := &v1beta1.PodENI{}
+				cerr := m.createENI(context.Background(), &allocs, pod, podENI)
+				cloud.mu.Lock()
+				creates := append([]c17pCreate(nil), cloud.creates...)
+				cloud.mu.Unlock()
+				nExh := 0
+				for _, cr := range creates {
+					if !cr.exhausted {
+						continue
+					}
+					nExh++
+					if i, ok := c17pIdx(cr.vsw); ok && i < n && cached[i] != nil {
+						cached[i] = &c17pView{ok: true, zone: cached[i].zone, free: 0}
+						reported[cr.vsw] = true
+					}
+				}
+				c.Trace("#%d createENI -> creates %v err=%v", step, creates, cerr)
+				if nExh > 0 {
+					c.Label("create:refused-exhausted")
+					c.NonTrivial()
+					if cerr == nil {
+						c.Fatalf("step %d: a create was refused as exhausted (%v) but createENI returned no error", step, creates)
+					}
+				} else {
+					c.Label("create:ok")
+				}
+			}
 		}
 	}
+}
+
+// c17pRecorder drops events.
+type c17pRecorder struct{}
+
+func (c17pRecorder) Event(runtime.Object, string, string, string)                  {}
+func (c17pRecorder) Eventf(runtime.Object, string, string, string, ...interface{}) {}
+func (c17pRecorder) AnnotatedEventf(runtime.Object, map[string]string, string, string, string, ...interface{}) {
 }
 
 func TestVerifC17PodNetworks(t *testing.T) { vt.Run(t, c17pGen, c17pRun) }
